@@ -2137,30 +2137,10 @@ func (f *fragment) bulkImportMutex(rowIDs, columnIDs []uint64) error {
 	// repeated within the import.
 	colSet := make(map[uint64]uint64)
 
-	// Since each imported bit will at most set one bit and clear one bit, we
-	// can reuse the rowIDs and columnIDs slices as the set and clear slice
-	// arguments to importPositions. The set positions we'll get from the
-	// colSet, but we maintain clearIdx as we loop through row and col ids so
-	// that we know how many bits we need to clear and how far through columnIDs
-	// we are.
-	clearIdx := 0
+	// The last write to a column within the batch wins, so first reduce the
+	// batch to one position per column.
 	for i := range rowIDs {
 		rowID, columnID := rowIDs[i], columnIDs[i]
-		if existingRowID, found, err := f.mutexVector.Get(columnID); err != nil {
-			return errors.Wrap(err, "getting mutex vector data")
-		} else if found && existingRowID != rowID {
-			// Determine the position of the bit in the storage.
-			clearPos, err := f.pos(existingRowID, columnID)
-			if err != nil {
-				return err
-			}
-			columnIDs[clearIdx] = clearPos
-			clearIdx++
-
-			rowSet[existingRowID] = struct{}{}
-		} else if found && existingRowID == rowID {
-			continue
-		}
 		pos, err := f.pos(rowID, columnID)
 		if err != nil {
 			return err
@@ -2169,14 +2149,28 @@ func (f *fragment) bulkImportMutex(rowIDs, columnIDs []uint64) error {
 		rowSet[rowID] = struct{}{}
 	}
 
-	// re-use rowIDs by populating positions to set from colSet.
-	i := 0
-	for _, pos := range colSet {
-		rowIDs[i] = pos
-		i++
+	// Each column sets at most one bit and clears at most one bit. rowIDs and
+	// columnIDs have been consumed, so reuse them as the set and clear slice
+	// arguments to importPositions.
+	toSet, toClear := rowIDs[:0], columnIDs[:0]
+	for columnID, pos := range colSet {
+		rowID := pos / ShardWidth
+		existingRowID, found, err := f.mutexVector.Get(columnID)
+		if err != nil {
+			return errors.Wrap(err, "getting mutex vector data")
+		} else if found && existingRowID == rowID {
+			continue
+		} else if found {
+			// Determine the position of the bit in the storage.
+			clearPos, err := f.pos(existingRowID, columnID)
+			if err != nil {
+				return err
+			}
+			toClear = append(toClear, clearPos)
+			rowSet[existingRowID] = struct{}{}
+		}
+		toSet = append(toSet, pos)
 	}
-	toSet := rowIDs[:i]
-	toClear := columnIDs[:clearIdx]
 
 	return errors.Wrap(f.importPositions(toSet, toClear, rowSet), "importing positions")
 }
